@@ -13,7 +13,8 @@ RULE = ("cases = operation histories (insert/overwrite/operator[]/find/has/get/r
         "Set<String>; key pools: small dense ints, ints congruent mod 256 / 2048 / table size, negative ints, strings with "
         "20-60 byte common prefixes, full-hash-colliding strings built from \"Ab\"/\"BA\" blocks, bytes >= 0x80, the empty "
         "string; exhaustive probe of every key and every gap of ordered maps of sizes 0..6; tables created with 1..64 buckets "
-        "so growth thresholds are crossed early, plus histories crossing 225 and 1793 entries; pairs of containers with equal "
+        "(and size hints 0 / -1) so growth thresholds are crossed early, plus histories crossing 225 and 1793 entries, also while a second "
+        "handle to the same table exists (`share` = HashMap::operator=); pairs of containers with equal "
         "contents built in different orders / table sizes / with insert+remove noise, then ==; `raw` ops print the bucket count and "
         "the unsorted enumeration of hash containers on both sides; "
         "non-trivial = distinct case with at least one mutation and one observation")
@@ -28,7 +29,7 @@ ASSUMPTIONS = ["String keys are NUL-free: String::compare is libc strcmp = lexic
                "compared with the code through the bucket placement shown by `raw`",
                "sizeof(AtomicCount) <= sizeof(void*), i.e. ASL_HMAP_SKIP == 2 (checked by the harness in every `raw` op)",
                "Array<T>::insert/remove/clone on an unshared array behave as list insert/erase/copy (C01)",
-               "operator new/delete of chain nodes succeed; each HashMap handle is unshared when mutated (C02 does not quantify over shared handles)"]
+               "operator new/delete of chain nodes succeed; Map/Dic handles are unshared when mutated (shared Array growth is C01's known finding)"]
 SHRINK_KEEP_FIRST = 0
 
 FALLBACK = {"Gen/HashMapGen.lean": "/- placeholder written because the translator failed on the current source -/\n"
@@ -70,9 +71,14 @@ def _consts(repo):
     dflt = int(_one(r"HashMap\s*\(\s*\)\s*:\s*a\s*\(\s*(\d+)\s*\+\s*ASL_HMAP_SKIP\s*\)", src, "HashMap() default size"))
     body = cparse.find_function(src, r"void\s+rehash\s*\(\s*\)\s*\{")
     flat = re.sub(r"\s+", "", body)
-    m = re.search(r"if\(_n\(\)<a\.length\(\)\*(\d+)/(\d+)\|\|a\.length\(\)>(\d+)\)return;", flat)
+    m = re.search(r"if\(_n\(\)<a\.length\(\)\*(\d+)/(\d+)\|\|a\.length\(\)>(\d+)\|\|_rc\(\)>1\)return;", flat)
     if not m:
-        raise TranslateError("rehash(): growth condition not recognised")
+        raise TranslateError("rehash(): growth condition not recognised (expected `_n() < a.length()*N/D || a.length() > MAX || "
+                             "_rc() > 1` -> return; the model never grows a table that other handles share)")
+    ctor = re.sub(r"\s+", "", cparse.find_function(src, r"HashMap\s*\(\s*int\s+n\s*\)\s*\{"))
+    if not ctor.startswith("{if(n<1)n=1;a.resize(nextPoT(n)+ASL_HMAP_SKIP);"):
+        raise TranslateError("HashMap(int n): expected `if (n < 1) n = 1; a.resize(nextPoT(n)+ASL_HMAP_SKIP);` (AslModel.HashMap.ofSize): "
+                             + ctor[:100])
     num, den, mx = int(m.group(1)), int(m.group(2)), int(m.group(3))
     m = re.search(r"Array<KeyValN\*>b\(\(a\.length\(\)-ASL_HMAP_SKIP\)\*(\d+)\+ASL_HMAP_SKIP\);", flat)
     if not m:
@@ -213,7 +219,7 @@ def history(rng, kind, nops, pool=None, news=True):
     if kind not in ORDERED and news:
         for s in range(4):
             if rng.random() < 0.5:
-                ops.append("%s new %d %d" % (kind, s, rng.choice([1, 1, 2, 3, 4, 5, 8, 9, 16, 17, 64, 100, 256, 300, 2048])))
+                ops.append("%s new %d %d" % (kind, s, rng.choice([0, -1, 1, 1, 2, 3, 4, 5, 8, 9, 16, 17, 64, 100, 256, 300, 2048])))
     for _ in range(nops):
         r = rng.random()
         s = S()
@@ -244,7 +250,8 @@ def history(rng, kind, nops, pool=None, news=True):
             elif r < 0.66: ops.append("%s get %d %s %s" % (kind, s, K(), vstr(kind, rng)))
             elif r < 0.83: ops.append("%s rem %d %s" % (kind, s, K()))
             elif r < 0.84: ops.append("%s clear %d" % (kind, s))
-            elif r < 0.88: ops.append("%s clone %d %d" % (kind, s, S()))
+            elif r < 0.87: ops.append("%s clone %d %d" % (kind, s, S()))
+            elif r < 0.895: ops.append("%s share %d %d" % (kind, s, S()))
             elif r < 0.94: ops.append("%s eq %d %d" % (kind, s, S()))
             elif r < 0.96: ops.append("%s dump %d" % (kind, s))
             elif r < 0.99: ops.append("%s raw %d" % (kind, s))
@@ -254,7 +261,8 @@ def history(rng, kind, nops, pool=None, news=True):
             elif r < 0.45: ops.append("%s rem %d %s" % (kind, s, K()))
             elif r < 0.55: ops.append("%s has %d %s" % (kind, s, K()))
             elif r < 0.56: ops.append("%s clear %d" % (kind, s))
-            elif r < 0.59: ops.append("%s clone %d %d" % (kind, s, S()))
+            elif r < 0.58: ops.append("%s clone %d %d" % (kind, s, S()))
+            elif r < 0.60: ops.append("%s share %d %d" % (kind, s, S()))
             elif r < 0.62: ops.append("%s from %d %s" % (kind, s, " ".join(K() for _ in range(rng.randrange(0, 6)))))
             elif r < 0.65: ops.append("%s addset %d %d" % (kind, s, S()))
             elif r < 0.67: ops.append("%s addself %d" % (kind, s))
@@ -304,7 +312,7 @@ def equal_contents(rng, kind):
     if kind not in ORDERED:
         for s in (0, 1):
             if rng.random() < 0.7:
-                ops.append("%s new %d %d" % (kind, s, rng.choice([1, 2, 3, 4, 8, 16, 64, 256, 2048])))
+                ops.append("%s new %d %d" % (kind, s, rng.choice([0, 1, 2, 3, 4, 8, 16, 64, 256, 2048])))
     ins = "ins" if kind in SETS else rng.choice(["set", "asg"])
     def put(s, k):
         return "%s %s %d %s" % (kind, ins, s, k) + ("" if kind in SETS else " " + vals[k])
@@ -346,10 +354,12 @@ def equal_contents(rng, kind):
     return ops + dumps(kind)
 
 
-def growth(rng, kind, n, start=None, removes=0.1):
-    """n distinct insertions (crossing the growth thresholds), interleaved removals and lookups"""
+def growth(rng, kind, n, start=None, removes=0.1, shared=None):
+    """n distinct insertions (crossing the growth thresholds), interleaved removals and lookups.
+    shared=(i0, i1): slot 3 is a second handle to the same table while insertions i0..i1 happen (a copy of the
+    handle exists while the fill thresholds are crossed), then slot 3 is rebound and growth may resume"""
     ops = []
-    if start:
+    if start is not None:
         ops.append("%s new 0 %d" % (kind, start))
     ins = "ins" if kind in SETS else "asg"
     if kind in INTKEY:
@@ -360,7 +370,14 @@ def growth(rng, kind, n, start=None, removes=0.1):
     live = []
     for i, k in enumerate(keys):
         ks = kstr(kind, k)
-        ops.append("%s %s 0 %s" % (kind, ins, ks) + ("" if kind in SETS else " %d" % i))
+        if shared and i == shared[0]:
+            ops.append("%s share 0 3" % kind)
+        if shared and i == shared[1]:
+            ops += ["%s len 3" % kind, "%s eq 0 3" % kind, "%s eq 3 0" % kind, "%s has 3 %s" % (kind, live[-1] if live else ks),
+                    "%s dump 3" % kind, "%s raw 3" % kind, "%s raw 0" % kind, "%s new 3 4" % kind]
+        # insert through either handle while shared
+        hs_ = 3 if shared and shared[0] <= i < shared[1] and rng.random() < 0.3 else 0
+        ops.append("%s %s %d %s" % (kind, ins, hs_, ks) + ("" if kind in SETS else " %d" % i))
         live.append(ks)
         if rng.random() < removes:
             j = rng.randrange(len(live))
@@ -419,6 +436,12 @@ def gen(rng, tier):
         for start in (None, 1, 3, 8, 64):
             for rep in range(1 if q else 6):
                 cases.append(growth(rng, kind, rng.choice([60, 240, 300]), start, removes=rng.choice([0.0, 0.1, 0.3])))
+    # 5. growth thresholds crossed while a second handle to the table exists (copy constructed / assigned handle)
+    for kind in HASHED + SETS:
+        for start, n, sh in ((None, 300, (10, 280)), (1, 80, (0, 70)), (8, 120, (5, 60)), (0, 40, (1, 30)), (64, 200, (50, 100))):
+            for rep in range(1 if q else 4):
+                a0 = sh[0] + rng.randrange(0, 3)
+                cases.append(growth(rng, kind, n, start, removes=rng.choice([0.0, 0.05]), shared=(a0, sh[1] + rng.randrange(0, 5))))
     cases.append(growth(rng, "hi", 1900, None, removes=0.02))
     cases.append(growth(rng, "ss", 1850, 256, removes=0.0))
     if not q:
@@ -430,7 +453,7 @@ def gen(rng, tier):
     return cases
 
 
-MUT = ("set", "asg", "idx", "rem", "ins", "from", "addset", "add", "clear", "union", "inter", "diff", "clone")
+MUT = ("share", "addself", "set", "asg", "idx", "rem", "ins", "from", "addset", "add", "clear", "union", "inter", "diff", "clone")
 OBS = ("find", "has", "get", "cidx", "dump", "keys", "eq", "len", "cont", "any", "union", "inter", "diff", "idx")
 
 
@@ -462,10 +485,13 @@ class _Tbl:
     def enum(self):
         return [k for i in sorted(self.b) for k in self.b[i]]
 
-    def index(self, k, st):
+    def index(self, k, st, shared=False):
         c = _Tbl.C
         alen = self.nb + 2
-        if not (self.n < alen * c["num"] // c["den"] or alen > c["max"]):
+        due = not (self.n < alen * c["num"] // c["den"] or alen > c["max"])
+        if due and shared:
+            st["growth_due_while_shared"] += 1
+        if due and not shared:
             ks = self.enum()
             self.nb *= c["fac"]
             self.b = {}
@@ -506,7 +532,8 @@ def layout_stats(cases):
     except Exception:
         _Tbl.C = {"mul": 33, "dflt": 256, "num": 7, "den": 8, "fac": 8, "max": 280000}
     st = {k: 0 for k in ("rem_head_with_tail", "rem_mid", "rem_last", "rem_single", "rem_absent", "rehash_events",
-                         "rehash_max_buckets", "max_chain", "eq_same_size", "eq_across_sizes", "self_merge",
+                         "rehash_max_buckets", "max_chain", "eq_same_size", "eq_across_sizes", "self_merge", "share_ops",
+                         "growth_due_while_shared", "new_with_size_below_1",
                          "self_merge_at_growth_threshold", "raw_observations")}
     for c in cases:
         T = {kind: [_Tbl() for _ in range(4)] for kind in HASHED + SETS}
@@ -521,8 +548,14 @@ def layout_stats(cases):
             s = int(t[2]) % 4
             a = sl[s]
             K = (lambda x: int(x)) if kind in INTKEY else (lambda x: core.unhex(x))
-            if op == "new": sl[s] = _Tbl(_Tbl.nextpot(int(t[3])))
-            elif op in ("set", "asg", "idx", "ins"): a.index(K(t[3]), st)
+            sh = sum(1 for x in sl if x is a) > 1
+            if op == "new":
+                sl[s] = _Tbl(_Tbl.nextpot(max(1, int(t[3]))))
+                if int(t[3]) < 1: st["new_with_size_below_1"] += 1
+            elif op == "share":
+                sl[int(t[3]) % 4] = a
+                st["share_ops"] += 1
+            elif op in ("set", "asg", "idx", "ins"): a.index(K(t[3]), st, sh)
             elif op == "rem": a.remove(K(t[3]), st)
             elif op == "clear": a.b = {}; a.n = 0
             elif op == "clone":
@@ -538,13 +571,13 @@ def layout_stats(cases):
             elif op == "addset":
                 o = _Tbl()
                 for k in sl[int(t[3]) % 4].enum(): o.index(k, st)
-                for k in o.enum(): a.index(k, st)
+                for k in o.enum(): a.index(k, st, sh)
             elif op == "addself":
                 st["self_merge"] += 1
                 cc = _Tbl.C
                 if a.n and not (a.n < (a.nb + 2) * cc["num"] // cc["den"] or a.nb + 2 > cc["max"]):
                     st["self_merge_at_growth_threshold"] += 1
-                for k in a.enum(): a.index(k, st)
+                for k in a.enum(): a.index(k, st, sh)
             elif op in ("union", "inter", "diff"):
                 x, y = sl[int(t[3]) % 4], sl[int(t[4]) % 4]
                 ys = set(y.enum())
@@ -607,6 +640,7 @@ def simulate(case):
                 ks = sorted(x.keys(), key=_sortkey(kind))
                 return " ".join([str(len(x)), "empty" if not x else "nonempty"] + [_ks(kind, k) for k in ks])
             if op == "new": sl[s] = {}; out.append("ok 0")
+            elif op == "share": sl[int(t[3]) % 4] = a; out.append("ok %d" % len(a))
             elif op == "ins": a[_k(kind, t[3])] = 1; out.append("ok %d" % len(a))
             elif op == "rem": a.pop(_k(kind, t[3]), None); out.append("ok %d" % len(a))
             elif op == "has": out.append("1" if _k(kind, t[3]) in a else "0")
@@ -630,6 +664,7 @@ def simulate(case):
             continue
         ordered = kind in ORDERED
         if op == "new": sl[s] = {}; out.append("ok 0")
+        elif op == "share": sl[int(t[3]) % 4] = a; out.append("ok %d" % len(a))
         elif op in ("set", "asg"): a[_k(kind, t[3])] = V(t[4]); out.append("ok %d" % len(a))
         elif op == "idx":
             k = _k(kind, t[3]); a.setdefault(k, dflt); out.append("%s %d" % (VS(a[k]), len(a)))
@@ -794,7 +829,9 @@ LEVEL_TEXT = ("Proved in Lean 4, for ALL inputs and histories, about the executa
               "abstract map K->Option V as the finite-map operation, for every history (map_refines_finmap); keys()/enumeration strictly "
               "ascending, each key once, length() = number of distinct keys; == iff equal abstract maps; (3) HashMap/HashDic for an "
               "ARBITRARY hash function and any positive table size: the invariant (every key in bucket binOf(key), chains duplicate-free, "
-              "count = number of entries) is preserved by operator[], set, remove (repaired d4d2172), clear, rehash and dup/clone; "
+              "count = number of entries) is preserved by operator[], set, remove (repaired d4d2172), clear, rehash and dup/clone, and holds "
+              "for the table of every constructor argument incl. 0 and negative size hints (repaired 16300ca, hashmap_ofSize); while a "
+              "second handle shares the table rehash is a no-op (repaired c201e90, rehash_shared_noop), so handles never split; "
               "find/has/get walking one chain equal a linear search of the whole enumeration; rehash preserves the abstract map; every "
               "history refines K->Option V (hashmap_refines_finmap); the enumeration lists each entry exactly once and tables with equal "
               "contents enumerate permutations of each other; operator== (repaired 12cf1de) iff equal abstract maps, whatever the insertion "
@@ -820,8 +857,7 @@ LEVEL_NOTE = ("The loop/branch structure of the models is tied to the code by K 
               "list operations (C01), chain nodes' new/delete and the LeakSanitizer verdict, const operator[] default objects, the "
               "foreach/Enumerator plumbing (s << s around the growth threshold runs rehash inside the enumeration of s itself; exercised "
               "under ASan, modelled as enumerate-then-insert, equal by K). Equality/merge theorems for hash containers assume both tables "
-              "use the same hash function (true for one key type). Handles shared between two HashMap objects (copy without clone) are "
-              "outside C02's quantifier and are not generated. String keys are NUL-free (strcmp vs memcmp disagree on embedded NUL). No "
+              "use the same hash function (true for one key type). String keys are NUL-free (strcmp vs memcmp disagree on embedded NUL). No "
               "statement is left partial; hashmap_remove_head_counterexample / hashmap_eq_order_counterexample are about transcriptions of "
               "the pre-fix code kept in AslProps/C02.lean (their premise - the model's enumeration order is the code's - is what `raw` "
               "checks).")
